@@ -249,6 +249,23 @@ def check(trace, S, cfg):
                 break
     except Exception as e:  # noqa: BLE001
         viols.append((f'rates-raise-{type(e).__name__}', str(e)))
+    # --- with a minimal residence the rates must aggregate the jumps of THAT setting
+    if any(x != 0 and x % 2 == 0 for row in trace for x in row):
+        try:
+            j3 = Jumps(tr, minimal_residence=3)
+            c3 = Counter()
+            for r in impl.jump_rows(j3.data):
+                c3[labels[r[1]], labels[r[2]]] += 1
+            r3 = j3.rates(n_parts=1)
+            for pair in set((x, y) for x in labels for y in labels):
+                if not close(float(r3.loc[pair, 'rates']), c3[pair] / (A * total_time), 1e-9):
+                    viols.append(('rates-with-minimal-residence-wrong', f'{pair}: {float(r3.loc[pair, "rates"])} vs {c3[pair] / (A * total_time)}'))
+                    break
+        except ValueError as e:
+            if 'No jumps found' not in str(e):
+                viols.append(('rates-minimal-residence-raise-ValueError', str(e)))
+        except Exception as e:  # noqa: BLE001
+            viols.append((f'rates-minimal-residence-raise-{type(e).__name__}', str(e)))
     return viols, tuple(key)
 
 
